@@ -252,7 +252,11 @@ pub fn cell(spec: &Value) -> Value {
     let write = spec["write"].as_bool().unwrap();
     let mut outcomes: std::collections::BTreeSet<u64> = Default::default();
     let mut seq = 0usize;
+    let budget = Budget::new();
     for li in lo..hi {
+        if budget.over(&mut c) {
+            break;
+        }
         let opts = &lists[li];
         let big_blk = opts.iter().any(|(n, v)| lower(n) == "blksize" && v.parse::<u64>().map(|x| x > 2000).unwrap_or(false));
         for &flen in FILE_LENS.iter() {
